@@ -283,6 +283,21 @@ PAIRS = {2: {"xx": (0, 0), "yy": (1, 1), "xy": (0, 1)},
          3: {"xx": (0, 0), "yy": (1, 1), "zz": (2, 2), "yz": (1, 2), "xz": (0, 2), "xy": (0, 1)}}
 
 
+def close_rel(a, b, tol=1e-11):
+    """purely relative comparison (no absolute floor): |a-b| <= tol * max|b| (max|a| when b == 0)"""
+    a, b = np.asarray(a, dtype=float), np.asarray(b, dtype=float)
+    if a.shape != b.shape:
+        return False, "shape %s vs expected %s" % (a.shape, b.shape)
+    if not np.all(np.isfinite(a)):
+        return False, "non-finite values %r" % (a.ravel()[:3].tolist(),)
+    scale = float(np.max(np.abs(b))) if b.size else 0.0
+    err = float(np.max(np.abs(a - b))) if b.size else 0.0
+    if err <= tol * scale or err == 0.0:
+        return True, "rel %.1e" % (err / scale if scale else 0.0)
+    i = int(np.argmax(np.abs(a - b).ravel()))
+    return False, "max abs diff %.6g = %.3g x max|expected| at flat index %d: got %r expected %r" % (err, err / scale if scale else float("inf"), i, float(a.ravel()[i]), float(b.ravel()[i]))
+
+
 def full_tensor(T, dim, kelvin=True):
     """(…, ncomp) Kelvin-Mandel (or plain) vector -> (…, 3, 3) symmetric tensor; entries not
     carried by the vector are 0 (the plane assumption the code uses in 2-D)"""
@@ -756,6 +771,90 @@ def extra_checks(seed):
         energy_and_balance("back-on-meshB", [0, 3], FB)
     except Exception:
         rec("Elastic:history", "history:scenario", False, traceback.format_exc()[-500:], kind="harness")
+    # von Mises of near-hydrostatic and exactly hydrostatic 3-D states (large mean, tiny deviator):
+    # reference = difference form evaluated in exact rational arithmetic on the very same doubles
+    try:
+        from fractions import Fraction as Fr
+        from EasyFEA.FEM import FeArray
+        from EasyFEA.Models import _utils as MU
+        import math
+
+        def vm_exact(xx, yy, zz, yz, xz, xy):
+            v = [Fr(x) for x in (xx, yy, zz, yz, xz, xy)]
+            arg = Fr(1, 2) * ((v[0] - v[1]) ** 2 + (v[1] - v[2]) ** 2 + (v[2] - v[0]) ** 2 + 6 * (v[3] ** 2 + v[4] ** 2 + v[5] ** 2))
+            n, d = arg.numerator, arg.denominator
+            k = max(0, n.bit_length() - d.bit_length() - 200)         # keep ~200 significant bits
+            return math.sqrt((n >> k) / d) * 2.0 ** (k / 2.0) if k else math.sqrt(n / d)
+        states = []
+        for mean in (1.0, 3.0e5, 2.0 ** -30):
+            for dev in (0.0, 2e-8, 5e-6):
+                states.append((mean * (1 + dev), mean, mean * (1 - dev), mean * dev * 0.5, 0.0, mean * dev))
+                states.append((mean, mean, mean, 0.0, mean * dev, 0.0))
+        arr = np.array(states, dtype=float).reshape(len(states), 1, 6)       # physical components
+        km = arr.copy()
+        km[..., 3:] *= SQ2                                                   # stored Kelvin-Mandel vector
+        got = np.asarray(MU.Result_strain_or_stress_field_e(field_e_pg=lambda g: FeArray.asfearray(km.copy()), list_groupElem=[None], result="vm", coef=SQ2), dtype=float)
+        # the components the code sees after its own 1/sqrt2 rescale (not bit-identical to `arr`)
+        seen = km.copy()
+        seen[..., 3:] *= 1 / SQ2
+        for i, st_ in enumerate(states):
+            ref = vm_exact(*seen[i, 0])
+            mean = abs(st_[1])
+            if ref > 1e-9 * mean:
+                ok, d = close_rel(got[i], ref, tol=1e-9)
+            else:
+                # (numerically) hydrostatic: anything below the round-off of the components is fine, NaN is not
+                ok = bool(np.isfinite(got[i]) and abs(got[i] - ref) <= 1e-12 * mean)
+                d = "got %r, exact %r, mean stress %r" % (float(got[i]), ref, mean)
+            rec("utils:vonmises", "vm-near-hydrostatic[%d]" % i, ok, "state %s: %s" % (["%.17g" % x for x in st_], d))
+    except Exception:
+        rec("utils:vonmises", "vm-near-hydrostatic", False, traceback.format_exc()[-500:], kind="harness")
+    # near-equal parameter changes must be observed like large ones: assemble -> change the thickness
+    # by 1e-6, 1e-9 relative and by one ulp -> the cached K must be the K of a fresh simulation, and
+    # Wdef = 1/2 u'Ku must keep holding
+    try:
+        from EasyFEA import Models, Simulations
+        mesh = mesh_2d_mixed()
+        t0 = 1.5
+        mat = Models.Elastic.Isotropic(2, E=8.0, v=0.25, planeStress=True, thickness=t0)
+        simu = Simulations.Elastic(mesh, mat)
+        u = rng.integers(-6, 7, mesh.Nn * 2).astype(float)
+        simu._Set_solutions(simu.problemType, u.copy())
+        simu.Get_K_C_M_F()
+        for label, t1 in (("1e-6", t0 * (1 + 1e-6)), ("1e-9", t0 * (1 + 1e-9)), ("1ulp", float(np.nextafter(t0, 2.0))), ("E:1e-7", None)):
+            if t1 is None:
+                mat.E = mat.E * (1 + 1e-7)
+                fresh = Simulations.Elastic(mesh, Models.Elastic.Isotropic(2, E=mat.E, v=0.25, planeStress=True, thickness=mat.thickness))
+            else:
+                mat.thickness = t1
+                fresh = Simulations.Elastic(mesh, Models.Elastic.Isotropic(2, E=mat.E, v=0.25, planeStress=True, thickness=t1))
+            K = simu.Get_K_C_M_F()[0]
+            Kf = fresh.Get_K_C_M_F()[0]
+            same = bool((K - Kf).nnz == 0 or np.max(np.abs((K - Kf).data)) == 0.0)
+            rec("Elastic:near-equal", "param-change[%s]:K==fresh" % label, same, "max |K - K_fresh| = %.3g (max |K| %.3g)" % (float(np.max(np.abs((K - Kf).data))) if (K - Kf).nnz else 0.0, float(np.max(np.abs(Kf.data)))))
+            ok, d = close_rel(simu.Result("Wdef"), 0.5 * u @ (K @ u), tol=1e-11)
+            rec("Elastic:near-equal", "param-change[%s]:Wdef=half-uKu" % label, ok, d)
+    except Exception:
+        rec("Elastic:near-equal", "param-change", False, traceback.format_exc()[-500:], kind="harness")
+    # scaled twins of the energy identity: micro / kilo lengths, stiff / soft moduli -- purely relative
+    try:
+        from EasyFEA import Models, Simulations
+        for sL, sE in ((1e-6, 2.0 ** 40), (1e-9, 1.0), (1e3, 2.0 ** -40)):
+            for key, mk, dim in (("2d", mesh_2d_mixed, 2), ("3d", mesh_3d_mixed, 3)):
+                mesh = mk()
+                mesh.coord = mesh.coord * sL
+                mat = Models.Elastic.Isotropic(dim, E=8.0 * sE, v=0.25, planeStress=True, thickness=1.5) if dim == 2 else Models.Elastic.Isotropic(3, E=8.0 * sE, v=0.25, thickness=2.5)
+                simu = Simulations.Elastic(mesh, mat)
+                u = rng.integers(-6, 7, mesh.Nn * dim).astype(float) * sL
+                simu._Set_solutions(simu.problemType, u.copy())
+                K = simu.Get_K_C_M_F()[0]
+                ok, d = close_rel(simu.Result("Wdef"), 0.5 * u @ (K @ u), tol=1e-11)
+                rec("Elastic:scaled", "scaled[L=%g,E=%g]:%s:Wdef=half-uKu" % (sL, sE, key), ok, d)
+                ex = expected(simu, {"cls": "Elastic", "dim": dim, "dof_n": dim, "cfg": "", "scale": 1.0}, {"u": u, "v": u, "a": u}, "Svm")
+                ok, d = close_rel(simu.Result("Svm", nodeValues=False), ex[1], tol=1e-10)
+                rec("Elastic:scaled", "scaled[L=%g,E=%g]:%s:Svm" % (sL, sE, key), ok, d)
+    except Exception:
+        rec("Elastic:scaled", "scaled-twins", False, traceback.format_exc()[-500:], kind="harness")
     # constants are preserved by both conversions
     for simkey in ("Elastic:2d", "Elastic:3d", "Thermal:2d", "WeakForms:dof2", "Beam:2"):
         simu, meta = build(simkey)
